@@ -120,6 +120,7 @@ pub fn run(ctx: &Ctx) {
         blocks.push(Block::new(u_long_runs(40), grid(&[R], 3), "r x 3x3 thresholds"));
         blocks.push(Block::new(u_count_gaps(), grid(&[R], 3), "r x 3x3 thresholds"));
         blocks.push(Block::new(u_nested_rep(), grid(&[R], 3), "r x 3x3 thresholds"));
+        blocks.push(Block::new(crate::props::c05::u_rep_single(&["a", "b"], 9), grid(&[0, X, I], 3), "NO r: {{}, x, i} x 3x3 thresholds (thresholds alone must not switch the conversion on)"));
         blocks.push(Block::new(u_kind_triples(), vec![Cfg::new(0), Cfg::new(R), Cfg::with(R, 1, 2), Cfg::with(R | X, 2, 1)], "{}, r, r(1,2), r+x(2,1)"));
     } else {
         blocks.push(Block::new(crate::props::c05::u_rep_single(&["a", "b"], 14), grid(&[R], 6), "r x 6x6 thresholds"));
@@ -132,6 +133,7 @@ pub fn run(ctx: &Ctx) {
         blocks.push(Block::new(Universe::new("U_adv(units)", &["a\u{1f3fb}", "\u{1f4a9}", "a", "{", "1"], 6, 1, false), grid(&[R, R | E, R | D, R | X], 4), "4 bases x 4x4"));
         blocks.push(Block::new(u_kind_pairs(4, 1, false), grid(&[R, R | X], 3), "{r, r+x} x 3x3"));
         blocks.push(Block::new(u_count_gaps(), grid(&[R, R | X, R | NE], 5), "{r, r+x, r+ne} x 5x5 thresholds"));
+        blocks.push(Block::new(crate::props::c05::u_rep_single(&["a", "b"], 12), grid(&[0, X, I, D, E], 4), "NO r: {{}, x, i, d, e} x 4x4 thresholds"));
         blocks.push(Block::new(u_long_rep(46), grid(&[R, R | I], 4), "{r, r+i} x 4x4 thresholds"));
         blocks.push(Block::new(u_kind_pairs(3, 1, false), vec![Cfg::new(0), Cfg::new(X), Cfg::new(E), Cfg::new(I), Cfg::with(0, 2, 2)], "no r: {}, x, e, i, thresholds (2,2)"));
     }
